@@ -108,7 +108,7 @@ Definition allowed : list (string * string * string * string * string * arg_clas
   ("rule_pyflakes.go", "runPyflakes", "%s", "rule.cmd.exe", "`%s` did not run successfully while chec", Tool);
   ("rule_pyflakes.go", "runPyflakes", "%s", "pos", "`%s` did not run successfully while chec", Position);
   ("rule_pyflakes.go", "parseNextError", "%s", "pos", "error message from pyflakes does not end", Position);
-  ("rule_pyflakes.go", "parseNextError", "%s", "msg", "pyflakes reported issue in this script: ", LibraryError);
+  ("rule_pyflakes.go", "parseNextError", "%s", "oneLine(string(msg))", "pyflakes reported issue in this script: ", LibraryError);
   ("rule_runner_label.go", "verifyRunnerLabel", "%v", "err", "label pattern %q is an invalid glob. kin", LibraryError);
   ("rule_runner_label.go", "verifyRunnerLabel", "%s", "quotesAll( allGitHubHostedRunnerLabels, selfHostedRunnerPres", "label %q is unknown. available labels ar", Quoted);
   ("rule_runner_label.go", "checkConflict", "%s", "l.Pos", "label %q conflicts with label %q defined", Position);
@@ -117,7 +117,7 @@ Definition allowed : list (string * string * string * string * string * arg_clas
   ("rule_shellcheck.go", "runShellcheck", "%s", "rule.cmd.exe", "`%s %s` did not run successfully while c", Tool);
   ("rule_shellcheck.go", "runShellcheck", "%s", "strings.Join(args, "" "")", "`%s %s` did not run successfully while c", Tool);
   ("rule_shellcheck.go", "runShellcheck", "%s", "pos", "`%s %s` did not run successfully while c", Position);
-  ("rule_shellcheck.go", "runShellcheck", "%s", "err.Level", "shellcheck reported issue in this script", Tool);
+  ("rule_shellcheck.go", "runShellcheck", "%s", "oneLine(err.Level)", "shellcheck reported issue in this script", Tool);
   ("rule_shellcheck.go", "runShellcheck", "%s", "msg", "shellcheck reported issue in this script", LibraryError);
   ("rule_workflow_call.go", "checkWorkflowCallUsesLocal", "%s", "note", "input %q is not defined in %q reusable w", Words);
   ("rule_workflow_call.go", "checkWorkflowCallUsesLocal", "%s", "note", "secret %q is not defined in %q reusable ", Words);
